@@ -54,9 +54,18 @@ pred lbServersArr(lb LoadBalancer) := typeIs(lb, "*roundRobinLoadBalancer") ? re
 pred lbServersLen(lb LoadBalancer) := typeIs(lb, "*roundRobinLoadBalancer") ? len(as(lb, "*roundRobinLoadBalancer").Servers) : (typeIs(lb, "*randomLoadBalancer") ? len(as(lb, "*randomLoadBalancer").Servers) : (typeIs(lb, "*WeightedRandomLoadBalancer") ? len(as(lb, "*WeightedRandomLoadBalancer").Servers) : (typeIs(lb, "*ipHashLoadBalancer") ? len(as(lb, "*ipHashLoadBalancer").Servers) : len(as(lb, "*headerHashLoadBalancer").Servers))))
 pred balances(lb LoadBalancer, servers []*Server) := lbServersArr(lb) == ref(servers) && lbServersLen(lb) == len(servers)
 
+// C03: a server is addressed by host name iff the host part of its URL - without the port and without the
+// brackets of an IPv6 literal - is not an IP address (the client's Host is kept for IP-addressed servers)
+pred noByte(x string, c int) := forall j int :: 0 <= j && j < len(x) ==> x[j] != c
 func (s *Server) checkAddrPattern()
-  trusted
+  flag ascii
+  requires s != nil
   modifies s.addrIsHostName
+  ensures plain-host: (let h = urlHostOf(s.URL) in (urlOK(s.URL) && noByte(h, 58) && noByte(h, 93) ==> s.addrIsHostName == !validIP(h)))
+  ensures host-with-port: forall c int :: (let h = urlHostOf(s.URL) in (urlOK(s.URL) && noByte(h, 93) && 0 <= c && c < len(h) && h[c] == 58 && (forall j int :: 0 <= j && j < len(h) && j != c ==> h[j] != 58) ==> s.addrIsHostName == !validIP(substr(h, 0, c))))
+  ensures bracketed-ipv6-without-port: (let h = urlHostOf(s.URL) in (urlOK(s.URL) && len(h) >= 2 && h[0] == 91 && h[len(h) - 1] == 93 && (forall j int :: 0 <= j && j < len(h) - 1 ==> h[j] != 93) ==> s.addrIsHostName == !validIP(substr(h, 1, len(h) - 2))))
+  // (the bracketed form with a port, "[a]:p", needs nested substring reasoning that no solver here finishes in time: not claimed)
+  ensures unparsable-url-changes-nothing: !urlOK(s.URL) ==> s.addrIsHostName == old(s.addrIsHostName)
 
 func (sp *ServerPool) createLoadBalancer(servers []*Server)
   requires sp != nil && sp.spec != nil && noNil(servers)
